@@ -252,6 +252,11 @@ def declare_vars(case, objs, containers=None):
                 v = cls(From(cont), **{f: dec(c) for f, c in vd.get("kw", [])})
         V.append(v)
         conts.append(cont)
+    if case.get("flat_var"):
+        # variable j is not declared over a domain: it is the element flattened out of variable i's collection
+        j_, i_ = case["flat_var"]
+        with symbolic_mode():
+            V[j_] = flatten(V[i_].kids)
     if case.get("share_terms") or os.environ.get("EQLV_FORCE_SHARE"):
         V = Vars(V)
         V.memo = {}
